@@ -189,6 +189,14 @@ class _AttrBase(Prop):
                         v = {"k": v["k"], "t": v["t"] + [59]}
                     items = [[nm, v]]
                 hist.append({"op": op, "items": items})
+                if op in ("new", "update", "setitem") and items and rnd.random() < 0.2:
+                    # the same characters for the same name again, with the other trust marking (a later update or
+                    # item assignment replaces, also when old and new value compare equal as strings)
+                    nm_, v_ = rnd.choice(items)
+                    # (an HTML() value that holds a double quote ends the attribute by itself: outside the statement)
+                    if v_["k"] == "html" or (v_["k"] == "str" and 34 not in v_["t"]):
+                        flipped = {"k": "html" if v_["k"] == "str" else "str", "t": v_["t"]}
+                        hist.append({"op": rnd.choice(["update", "setitem"]), "items": [[nm_, flipped]]})
             gens.append({"kind": "hist", "hist": hist, "choice": rnd.getrandbits(24)})
         for _ in range(200 if tier == "quick" else 4000):
             items = [[cps(rnd.choice(self.NAMES)), self.rand_val(rnd)] for _ in range(rnd.randint(0, 6))]
